@@ -366,6 +366,22 @@ def r_rej_meta(ctx):
             if J is not None:
                 known = any(fct[0] == "variant" and fct[2] == "serde_json::value::Value::Object" and fct[3] is True and unmut(fct[1]) == J for fct, _d in path_facts(p))
                 good = known and v == ("proj", J, "Value::Object.0")
+                if not good and isinstance(v, tuple) and v and v[0] == "call" and v[1] in ctx.facts.fns and J in [unmut(a_) for a_ in v[2]]:
+                    # the test lives in a local function that is not evaluated in place (public, say): it must do the same job on the argument it is handed
+                    g = ctx.fn(v[1])
+                    ga = ctx.fa(g)
+                    gi = [unmut(a_) for a_ in v[2]].index(J)
+                    if gi < len(ga.param_names):
+                        GJ = V("param:" + ga.param_names[gi])
+                        g_ok = [q for q in ga.paths if q.exit in ("ok", "tail")]
+                        g_good = bool(g_ok) and all(
+                            any(fct[0] == "variant" and fct[2] == "serde_json::value::Value::Object" and fct[3] is True and unmut(fct[1]) == GJ for fct, _d in path_facts(q)) and
+                            (unmut(unmut(q.value)[2][0]) if is_call_to(unmut(q.value), lambda x: x == "core::result::Result::Ok") and unmut(q.value)[2] else unmut(q.value)) == ("proj", GJ, "Value::Object.0")
+                            for q in g_ok)
+                        g_err = any(q.exit == "err" and any(fct[0] == "variant" and fct[2] == "serde_json::value::Value::Object" and fct[3] is False for fct, _d in path_facts(q)) for q in ga.paths)
+                        if g_good and g_err:
+                            good = True
+                            own_err = True
             obs.append(Ob("R-REJ-META", f["path"], "Ok only with the Value::Object payload of the parsed document", good,
                           "returns %s" % tstr(v)[:120], rel(f["loc"])))
         obs.append(Ob("R-REJ-META", f["path"], "a parsed document of another kind is an error", own_err and n_ok > 0, "own error exit after the parse: %s" % own_err, rel(f["loc"])))
@@ -408,13 +424,15 @@ def r_walk(ctx):
                     if tup and ent is not None:
                         off, ln = tup[0][1]
                         oa = affine(off)
-                        ok_addr = oa[0] == 0 and oa[1] == {V("param:leaf_dir_offset"): 1, ("f", ent, "offset"): 1} and aff_eq(affine(ln), affine(("f", ent, "length")))
+                        ok_addr = oa[0] == 0 and oa[1] == {role_param(fa, f, "u64"): 1, ("f", ent, "offset"): 1} and aff_eq(affine(ln), affine(("f", ent, "length")))
                         why = "leaf address = (%s, %s)" % (aff_str(oa), aff_str(affine(ln)))
                     obs.append(Ob("R-WALK", fn, "recursion: (leaf_dir_offset + entry.offset, entry.length)", ok_addr, why, e.loc()))
-                    for nm in ("compression", "leaf_dir_offset", "filter_range"):
-                        if nm in pnames:
-                            i = pnames.index(nm)
-                            ok = i < len(a) and a[i] == V("param:" + nm)
+                    for nm, kind in (("compression", "compression"), ("leaf_dir_offset", "u64"), ("filter_range", "range")):
+                        pv_ = role_param(fa, f, kind)
+                        carrier = pv_[1] if pv_[0] == "f" else pv_        # the parameter itself, or the struct parameter that carries it
+                        if carrier[1][6:] in pnames:
+                            i = pnames.index(carrier[1][6:])
+                            ok = i < len(a) and a[i] == carrier
                             obs.append(Ob("R-WALK", fn, "recursion: %s passed unchanged" % nm, ok, "argument %d = %s" % (i, tstr(a[i])[:80] if i < len(a) else "missing"), e.loc()))
                     # (iii) dispatch on the leaf test of the same entry
                     ok_disp = ent is not None and _decided(p, e.seq, lambda c: _is_leaf_test(c, ent), True)
@@ -508,12 +526,23 @@ def r_find(ctx):
         return no_anchor("R-FIND", "Directory::find_entry_for_tile_id")
     for f in fs:
         fa = ctx.fa(f)
+        TID = role_param(fa, f, "u64")
         ok = False
         why = "no closure predicate found"
         for p in fa.paths:
             v = unmut(p.value)
+            # `iter.filter(p1).find(p2)` is `iter.find(p1 && p2)`: the conjuncts of single-expression filters in front of the find count for its predicate
+            filt_conj, filt_ids = [], set()
+            if is_call_to(v, lambda s: s.endswith("::find")) and v[2]:
+                it = unmut(v[2][0])
+                while is_call_to(it, lambda s: s.endswith(("::filter", "::iter", "::into_iter"))) and it[2]:
+                    if it[1].endswith("::filter") and len(it[2]) == 2 and unmut(it[2][1])[0] == "clos" and len(unmut(it[2][1])[2]) == 1:
+                        cl = unmut(it[2][1])
+                        filt_ids.add(cl[1])
+                        filt_conj += _conjuncts(unmut(cl[2][0]))
+                    it = unmut(it[2][0])
             for t in subterms(v):
-                if isinstance(t, tuple) and t[0] == "clos" and t[2]:
+                if isinstance(t, tuple) and t[0] == "clos" and t[2] and t[1] not in filt_ids:
                     # every way the predicate can answer `true` must have established both facts (as conjuncts of the returned
                     # expression or as decisions on the way, e.g. an early `return false` for leaf entries)
                     cps = getattr(fa, "clos_paths", {}).get(t[1]) or [(b, []) for b in t[2]]
@@ -525,20 +554,20 @@ def r_find(ctx):
                         if body == ("lit", "bool", False):
                             continue
                         n_true += 1
-                        conj = _conjuncts(body) if body != ("lit", "bool", True) else []
+                        conj = (_conjuncts(body) if body != ("lit", "bool", True) else []) + filt_conj
                         facts = []
                         for d in decs:
                             facts += decision_facts(d)
                         has_leaf = any(_is_neg_leaf(c) for c in conj) or any(f[0] == "bool" and is_call_to(f[1], lambda s: s.endswith("::is_leaf_dir_entry")) and f[2] is False for f in facts) \
                             or any(f[0] == "ne" and f[1][0] == "f" and f[1][2] == "run_length" and f[2] == 0 for f in facts)
-                        has_contains = any(_is_contains(c, V("param:tile_id")) for c in conj) or any(f[0] == "bool" and _is_contains(f[1], V("param:tile_id")) and f[2] is True for f in facts)
-                        extra = [c for c in conj if not _is_neg_leaf(c) and not _is_contains(c, V("param:tile_id"))]
+                        has_contains = any(_is_contains(c, TID) for c in conj) or any(f[0] == "bool" and _is_contains(f[1], TID) and f[2] is True for f in facts)
+                        extra = [c for c in conj if not _is_neg_leaf(c) and not _is_contains(c, TID)]
                         # the run written out as two comparisons, start ≤ id < start + run_length (which also excludes leaf pointers: their run is empty)
                         lower = upper = False
                         relfacts = list(facts)
                         for c in conj:
                             relfacts += rulebase_atom_facts(unmut(c), True)
-                        tid_ = V("param:tile_id")
+                        tid_ = TID
                         used = []
                         for fct in relfacts:
                             if fct[0] == "rel" and fct[1] in ("<", "<=", ">", ">="):
@@ -565,15 +594,15 @@ def r_find(ctx):
                 ok = False
                 why = "lookup is not an iterator `find` over the entries: %s" % tstr(v)[:100]
         if not ok and not any(is_call_to(unmut(p.value), lambda s: s.endswith("::find")) for p in fa.paths):
-            ok, why = _find_as_loop(fa)
+            ok, why = _find_as_loop(fa, TID)
         obs.append(Ob("R-FIND", f["path"], "predicate = !is_leaf_dir_entry() && tile_id_range().contains(id)", ok, why, rel(f["loc"])))
     return obs
 
 
-def _find_as_loop(fa):
+def _find_as_loop(fa, tid=None):
     """the same lookup written as a loop with an early `return Some(entry)`: every such return knows "not a leaf pointer" and "the run covers the id"
     (as `tile_id_range().contains(&id)` or as the two comparisons start ≤ id < start + run_length), the fall-through answer is None"""
-    tid = V("param:tile_id")
+    tid = tid if tid is not None else V("param:tile_id")
     n_some = n_none = 0
     for p in fa.paths:
         v = unmut(p.value)
@@ -839,10 +868,10 @@ def r_bounded_read(ctx):
             obs.append(Ob("R-BOUNDED-READ", fn, "walker: decode call", False, "walker has no Directory::from_*reader call", rel(f["loc"])))
     # the directory decoder: every read goes through take(length)
     for f in ctx.user_fns():
-        if any(c["fn"] in ("integer_encoding::reader::VarIntReader::read_varint", "integer_encoding::reader::VarIntAsyncReader::read_varint_async") for c in calls(f["body"])) and ctx.has_struct(f, "directory::Directory"):
+        if f["path"] not in ctx.inlinable and (ctx.calls_inl(f) & {"integer_encoding::reader::VarIntReader::read_varint", "integer_encoding::reader::VarIntAsyncReader::read_varint_async"}) and ctx.has_struct_inl(f, "directory::Directory"):
             cls = read_class(ctx, f["path"], 0)
             fa = ctx.fa(f)
-            ok = cls[0] == "bounded" and cls[1] == (fa.param_names.index("length") if "length" in fa.param_names else -1)
+            ok = cls[0] == "bounded" and cls[1] == (fa.param_names.index(role_param(fa, f, "u64")[1][6:]) if role_param(fa, f, "u64")[1][6:] in fa.param_names else -1)
             obs.append(Ob("R-BOUNDED-READ", f["path"], "directory decoder reads only through take(length)", ok, "read class of the input parameter: %s" % (cls,), rel(f["loc"])))
     return obs
 
